@@ -58,7 +58,7 @@ RateLimit == B!RateLimit
 Settled == B!Settled
 StepProps == [][out'.ev = "init" \/ ((out'.ev = "ubegin" => cur.g # last)
                                     /\ ((now' > now) => (pc \in {"wait", "upload", "exited"} /\ (cancelled => pc = "exited")))
-                                    /\ ((out'.ev = "uend" /\ out'.ok) => (last' = cur.g /\ last' <= cur.body)))]_bvars
+                                    /\ ((out'.ev = "uend" /\ out'.ok) => (last' >= cur.g /\ last' <= cur.body)))]_bvars
 
 ASSUME TLCSet(1, 0)
 HW == TLCGet(1) >= l \/ TLCSet(1, l)
